@@ -378,13 +378,59 @@ def write_closure(cl: Dict[str, Any], d: Path):
         (d / fn).write_text(file_yaml(fs))
 
 
-def real_parse(cl: Dict[str, Any], path: Path, coredefs: Optional[bool] = None):
-    """(outcome tokens, parser or None, exception text)"""
+def _names_of(cl: Dict[str, Any]) -> Tuple[List[str], List[Tuple[str, int]], List[str]]:
+    """(struct names, (message name, id), alias names) of the closure's own files"""
+    st, ms, al = [], [], []
+    for _fn, fs in cl["files"].items():
+        st += [n for n, _f in fs.get("structs", [])]
+        ms += [(n, i) for n, i, _f in fs.get("messages", []) if isinstance(i, int)]
+        al += [n for n, _t in fs.get("aliases", [])]
+    return st, ms, al
+
+
+def poison_yaml(cl: Dict[str, Any]) -> str:
+    """a file that defines the closure's struct / message names with other layouts and then fails (duplicate message id):
+    `Parser.parse` raises and calls `clear()`; the same Parser object is then given the real file"""
+    st, ms, _al = _names_of(cl)
+    used = {i for _n, i in ms}
+    dup = next(i for i in range(4000, 9000) if i not in used)
+    fs = {"structs": [[n, [["zz0", "int8", None, None]]] for n in dict.fromkeys(st)],
+          "messages": [[n, i, [["zz0", "int8", None, None]]] for n, i in dict(ms).items()] +
+                      [["ZZ_DUP_A", dup, None], ["ZZ_DUP_B", dup, None]]}
+    return file_yaml(fs)
+
+
+def prime_yaml(cl: Dict[str, Any]) -> str:
+    """a *valid* file in which every struct / message name of the closure is an alias of a native type and every alias name
+    is a struct: compiled first in the same process, it exposes state that survives from one compile to the next"""
+    st, ms, al = _names_of(cl)
+    names = list(dict.fromkeys(st + [n for n, _i in ms]))
+    fs = {"aliases": [[n, "int16"] for n in names if n not in al],
+          "structs": [[n, [["zz0", "double", None, None]]] for n in dict.fromkeys(al) if n not in names]}
+    return file_yaml(fs)
+
+
+def prime_process(cl: Dict[str, Any], work: Path):
+    d = work / "prime"
+    d.mkdir(parents=True, exist_ok=True)
+    (d / "prime.yaml").write_text(prime_yaml(cl))
+    real_compile({"auto_pad": True, "coredefs": False}, d / "prime.yaml", d / "out", python=True, javascript=True,
+                 matlab=True, c_lang=True, combined=True)
+
+
+def real_parse(cl: Dict[str, Any], path: Path, coredefs: Optional[bool] = None, poison: Optional[Path] = None):
+    """(outcome tokens, parser or None, exception text); with `poison`, the Parser object first fails on that file"""
     from pyrtma import parser as P
     a, b = _quiet()
     with a, b:
         p = P.Parser(validate_alignment=True, auto_pad=cl.get("auto_pad", True),
                      import_coredefs=cl.get("coredefs", False) if coredefs is None else coredefs)
+        if poison is not None:
+            try:
+                p.parse(poison)
+            except BaseException as e:  # noqa: BLE001  the failure is intended
+                if isinstance(e, (KeyboardInterrupt, SystemExit)):
+                    raise
         try:
             p.parse(path)
         except BaseException as e:  # noqa: BLE001
@@ -392,6 +438,23 @@ def real_parse(cl: Dict[str, Any], path: Path, coredefs: Optional[bool] = None):
                 raise
             return ["err", classify(P, e)], None, f"{type(e).__name__}: {e}"[:300]
     return ["ok"], p, ""
+
+
+def cli_coredefs(path: Path) -> bool:
+    """IMPORT_COREDEFS as `python -m pyrtma.compile -i <path>` resolves it: default True, replaced by the file's own
+    `compiler_options` entry when there is one (compile.py main())."""
+    from pyrtma import parser as P
+    val = True
+    a, b = _quiet()
+    try:
+        with a, b:
+            opts = P.Parser().parse_compiler_options(Path(path))
+        if "IMPORT_COREDEFS" in opts:
+            val = bool(opts["IMPORT_COREDEFS"].value)
+    except BaseException as e:  # noqa: BLE001
+        if isinstance(e, (KeyboardInterrupt, SystemExit)):
+            raise
+    return val
 
 
 def real_compile(cl: Dict[str, Any], src: Path, out: Path, cwd: Optional[Path] = None,
@@ -1106,7 +1169,21 @@ def run_closure(cid: str, cl: Dict[str, Any], tmp_root: Path, want: Dict[str, bo
         src = work / "src"
         write_closure(cl, src)
         root = src / cl["root"]
-        outcome, p, err = real_parse(cl, root)
+        # every second case: the process has compiled another file with the same names in other roles before, and the
+        # Parser object has failed on a file with the same names before (nothing of that may leak into this compile)
+        reused = (sum(map(ord, cid)) % 2 == 0)
+        obs["process_primed_and_parser_reused"] = reused
+        poison = None
+        if reused:
+            _safe0 = None
+            try:
+                prime_process(cl, work)
+                poison = work / "prime" / "poison.yaml"
+                poison.write_text(poison_yaml(cl))
+            except Exception as e:  # noqa: BLE001  the priming itself must never decide a case
+                obs["prime_error"] = f"{type(e).__name__}: {e}"[:200]
+                poison = None
+        outcome, p, err = real_parse(cl, root, poison=poison)
         hashes = hashes_of(p) if p is not None else {}
         has_hdr = p is not None and "RTMA_MSG_HEADER" in p.struct_defs
         skip_hdr = (not cl.get("coredefs")) and not has_hdr
@@ -1195,7 +1272,8 @@ def run_closure(cid: str, cl: Dict[str, Any], tmp_root: Path, want: Dict[str, bo
                     ylines, ynotes = [f"unreadable {type(e).__name__}"], {"error": str(e)[:200]}
                 blk += ["YAML " + y for y in ylines]
                 obs["combined_notes"] = ynotes
-                oc3, p3, err3 = real_parse(cl, out / "defs_combined.yaml", coredefs=False)
+                # re-parse the way the command line does: the file's own compiler_options decide about the core import
+                oc3, p3, err3 = real_parse(cl, out / "defs_combined.yaml", coredefs=cli_coredefs(out / "defs_combined.yaml"))
                 obs["roundtrip"] = " ".join(oc3) + (" " + err3 if err3 else "")
                 if p3 is not None:
                     blk += reg_lines(p3, I, "REG2")
